@@ -29,9 +29,15 @@ Verdict(r) ==
     ELSE IF s.outcome = "fail"
          THEN (IF r.obs.ok THEN [c |-> "assembled a program that must fail", d |-> s.why] ELSE [c |-> "ok", d |-> ""])
     ELSE IF ~r.obs.ok THEN (IF s.outcome = "either" THEN [c |-> "ok", d |-> ""] ELSE [c |-> "rejected a valid program", d |-> ""])
-    ELSE LET f == Flat(r.obs.calls) IN
-         IF f # s.img
-         THEN [c |-> "image", d |-> "first difference at pair " \o ToString(FirstDiff(f, s.img)) \o
+    ELSE LET f == Flat(r.obs.calls)
+             \* with included patches the writer sees an interleaving of the program's own pairs and the patches'
+             \* pairs (disjoint offsets, see Asm!Run): each must be there completely and in its order
+             io == {s.ips[j][1] : j \in 1..Len(s.ips)}
+             own == IF s.ips = <<>> THEN f ELSE SelectSeq(f, LAMBDA q : q[1] \notin io) IN
+         IF s.ips # <<>> /\ SelectSeq(f, LAMBDA q : q[1] \in io) # s.ips
+         THEN [c |-> "included patch records not reproduced at offset + delta in order", d |-> ""]
+         ELSE IF own # s.img
+         THEN [c |-> "image", d |-> "first difference at pair " \o ToString(FirstDiff(own, s.img)) \o
                                      " spec has " \o ToString(Len(s.img)) \o " pairs, observed " \o ToString(Len(f))]
          ELSE IF LabelSet(r.obs.labels) # s.labels
               THEN [c |-> "labels", d |-> ToString((s.labels \ LabelSet(r.obs.labels)) \cup (LabelSet(r.obs.labels) \ s.labels))]
